@@ -312,12 +312,18 @@ func (g *Gen) Next() Op {
 }
 
 func (g *Gen) isAncestor(a, d *gobj) bool {
+	// (bounded: when the server has accepted a rename of a directory into its own subtree - open finding F15 - the
+	// generator's picture of the tree has a cycle that never reaches the root)
+	n := 0
 	for x := d; ; x = x.parent {
 		if x == a {
 			return true
 		}
-		if x.parent == x {
+		if x.parent == x || x.parent == nil {
 			return false
+		}
+		if n++; n > 4096 {
+			return true
 		}
 	}
 }
